@@ -12,6 +12,7 @@ func init() { props["C10"] = checkC10 }
 func checkC10(r *Run) {
 	r.Explain = "C10: (R1) the two signature acceptors return 1 only for 65-byte signatures with low s (top bit of byte 32 clear) and recovery id < 4, with the recovered key equal to the given key; (R2) every acceptance entry of package cipher passes through them, and Sign normalises high s (s = n - s, recid ^= 1) on every path; (R4) Signature.ParseBytes sets r and s from the 32+32 signature bytes and does nothing else to them (parsing is injective), RecoverPublicKey accepts only with 0<r<n, 0<s<n tested on exactly those values; (R3) every encoded field of a transaction is constrained on acceptance, the signed message of input i is AddSHA256(InnerHash, In[i]) in all three sibling implementations, block signatures cover the header hash, and decoding is exact (no trailing bytes)."
 	r.NotDec = "that no other byte string verifies (needs curve mathematics, C14)"
+	ruleNullPredicates(r, "C10-R3", "cipher.Sig.Null", "cipher.SHA256.Null")
 	lowS := []string{"($1[32] >> 7) != 1", "($1[32] >> 7) == 0", "$1[32] < 128", "($1[32] & 128) == 0", "$1[32] <= 127"}
 	r.RequireOnSuccess("C10-R1", "cipher/secp256k1-go.VerifySignature",
 		req("low s only (top bit of s clear)", lowS...),
